@@ -378,6 +378,12 @@ class Check(PropertyCheck):
             yield {"side": side, "ops": [["cs", 10], ["hs", [[], []], 0], ["tc"]]} if side == "never" else {"side": side, "ops": [["ot"], ["hs", [[0.2], [0.7]], 0], ["pw", [4096] * 5, [0.1, 0.2, 0.21, 0.8], 0], ["tc"]]}
             yield {"side": side, "ops": [["hs", [[0.4]], 0], ["tc"]]}
             yield {"side": side, "ops": [["tc"]]}
+            # one segment carrying more plaintext than one recv(65535) / 2^16: exactly 65535, 65536, 65537 and well beyond, whole and cut
+            yield {"side": side, "ops": [["hs", [[], []], 0], ["pw", [16384, 16384, 16384, 16383], [], 0], ["cs", 3]]}
+            yield {"side": side, "ops": [["hs", [[], []], 0], ["pw", [16384, 16384, 16384, 16384], [], 0]]}
+            yield {"side": side, "ops": [["hs", [[], []], 0], ["pw", [16384, 16384, 16384, 16384, 1], [], 0], ["pc", []]]}
+            yield {"side": side, "ops": [["hs", [[], []], 0], ["pw", [16383, 16383, 5943], [], 1], ["pw", [3381, 16384, 15589], [0.18], 0], ["tc"]]}
+            yield {"side": side, "ops": [["hs", [[], []], 1], ["pw", [16384] * 9, [0.9], 0], ["pw", [1], [], 0]]}
             # the peer half-closes (close_notify + FIN, or a bare FIN); what the inner layer sends afterwards must still reach it
             yield {"side": side, "ops": [["hs", [[], []], 0], ["pw", [100], [], 0], ["pc", []], ["tc"], ["cs", 50], ["cs", 20000]]}
             yield {"side": side, "ops": [["hs", [[], []], 0], ["tc"], ["cs", 7]]}
